@@ -394,6 +394,13 @@ func drivePrimLimits(c *DriverCtx) error {
 						rargs["pw"], rargs["le"] = lm.pw, le
 						ops = append(ops, Op{Op: "prim", B: b, Fn: rfn, Args: rargs, Tag: "read-back"})
 					}
+					if n >= maxv {
+						// the same call into a recycled buffer with far more spare capacity than the value needs
+						// (earlier content, Reset): the limit does not depend on whether the buffer has to grow
+						br := b + "roomy"
+						ops = append(ops, Op{Op: "fill", B: br, Args: map[string]any{"runs": []any{map[string]any{"b": 0xAA, "n": 3*n + 70000}}}}, Op{Op: "reset", B: br},
+							Op{Op: "prim", B: br, Fn: fn, Args: args, Tag: "roomy-recycled-buffer"})
+					}
 				}
 				add("WriteString", map[string]any{"runs": []any{map[string]any{"b": 0x41, "n": n}}, "s": []int{}}, "ReadString", map[string]any{})
 				add("WriteBasicTypeList", map[string]any{"count": n, "elem": ia(0x81), "vals": []any{}, "ek": "u8"}, "ReadBasicTypeList", map[string]any{"ek": "u8"})
@@ -479,6 +486,9 @@ func driveMsgLimits(c *DriverCtx) error {
 			if n <= 65535 {
 				ops = append(ops, Op{Op: "decode", B: "b", O: "r", T: cs.t, Fresh: true})
 			}
+			// the same message into a recycled buffer with far more spare capacity than it needs
+			ops = append(ops, Op{Op: "fill", B: "roomy", Args: map[string]any{"runs": []any{map[string]any{"b": 0xAA, "n": 700000}}}}, Op{Op: "reset", B: "roomy"},
+				Op{Op: "encode", B: "roomy", O: "m", Tag: fmt.Sprintf("%s.%s len=%d into a roomy recycled buffer", cs.t, cs.f, n)})
 			if err := c.Run(ops); err != nil {
 				return err
 			}
@@ -687,6 +697,39 @@ func driveCalcReuse(c *DriverCtx) error {
 		ops = append(ops, Op{Op: "poke", B: "b", K: n / 3, Bytes: []int{(y[n/3] + 1) % 256}})
 		for _, a := range algs {
 			ops = append(ops, Op{Op: "calc", B: "b", Alg: a, Tag: "patched-in-place"})
+		}
+		if err := c.Run(ops); err != nil {
+			return err
+		}
+	}
+	// what lies BEHIND the end of the buffer in its backing array is not input: shorter content written after
+	// a Reset over longer, non-zero content (every length modulo 8 and 16), and a buffer over a prefix of a larger slice
+	lens := []int{}
+	for l := 0; l <= 33; l++ {
+		lens = append(lens, l)
+	}
+	for k := 0; k < 6*c.N; k++ {
+		lens = append(lens, 34+r.Intn(500))
+	}
+	for _, l := range lens {
+		stale := make([]int, l+64)
+		for j := range stale {
+			stale[j] = 0x80 | r.Intn(128)
+		}
+		content := c.junk(l)
+		ops := []Op{{Op: "write", B: "b", Bytes: stale}, {Op: "reset", B: "b"}, {Op: "write", B: "b", Bytes: content}}
+		for _, a := range algs {
+			ops = append(ops, Op{Op: "calc", B: "b", Alg: a, Tag: "shorter-content-after-reset"})
+		}
+		ops = append(ops, Op{Op: "write", B: "b2", Bytes: stale}, Op{Op: "next", B: "b2", K: len(stale)}, Op{Op: "write", B: "b2", Bytes: content})
+		for _, a := range algs {
+			ops = append(ops, Op{Op: "calc", B: "b2", Alg: a, Tag: "content-after-drained-content"})
+		}
+		if l > 0 {
+			ops = append(ops, Op{Op: "load", B: "b3", Bytes: append(append([]int{}, content...), stale[:24]...), K: l})
+			for _, a := range algs {
+				ops = append(ops, Op{Op: "calc", B: "b3", Alg: a, Tag: "prefix-of-a-larger-slice"})
+			}
 		}
 		if err := c.Run(ops); err != nil {
 			return err
